@@ -72,7 +72,19 @@ def recorded_methods():
 
 
 def detect(trees):
-    """{new name: recorded name} for pure renames of recorded methods (see module docstring)"""
+    """{new name: recorded name} for pure renames of recorded methods (see module docstring).
+    Repeated until nothing new is found: a renamed method whose caller was renamed too is
+    recognised once the caller has been mapped back."""
+    known = {}
+    for _ in range(4):
+        ren = _detect_once(trees, known)
+        if ren == known:
+            break
+        known = ren
+    return known
+
+
+def _detect_once(trees, known):
     if not TABLE.exists():
         return {}
     old = json.loads(TABLE.read_text())
@@ -86,7 +98,8 @@ def detect(trees):
         for x in ast.walk(t):
             if isinstance(x, ast.Attribute):
                 all_attrs.add(x.attr)
-    ren = {}
+    ren = dict(known)
+    per_class = {}
     for cn, oms in old.items():
         if cn not in cur:
             continue
@@ -100,13 +113,13 @@ def detect(trees):
         for m in missing:
             want_n, want_callers, want_fp = (oms[m] + [[]])[:3]
             for n in fresh:
-                if all_defs.get(n) != 1:
-                    continue
                 n_par, n_callers, n_fp = cms[n]
                 if n_par != want_n:
                     continue
-                # callers, looking through methods that are themselves new (extracted blocks)
-                callers = set(n_callers)
+                # callers, looking through methods that are themselves new (extracted blocks); a
+                # caller that is a known rename counts under its recorded name
+                callers = {'%s.%s' % (c.split('.', 1)[0], known.get(c.split('.', 1)[1], c.split('.', 1)[1]))
+                           if '.' in c else c for c in n_callers}
                 for _ in range(3):
                     for c in list(callers):
                         if c in fresh_q:
@@ -130,7 +143,14 @@ def detect(trees):
             back = sorted(best_for_n[n], reverse=True)
             if back[0][1] != m or (len(back) > 1 and back[1][0] > back[0][0] - 0.05):
                 continue
-            ren[n] = m
+            per_class.setdefault(n, {})[cn] = m
+    # a new name defined in several classes (sibling implementations renamed together) is mapped back
+    # only when every class that defines it agrees on the recorded name
+    for n, by_cls in per_class.items():
+        ms = set(by_cls.values())
+        defining = [cn for cn, cms in cur.items() if n in cms]
+        if len(ms) == 1 and all(cn in by_cls for cn in defining if cn in old):
+            ren[n] = next(iter(ms))
     return ren
 
 
